@@ -1,6 +1,7 @@
 package main
 
 import (
+	"runtime"
 	"encoding/json"
 	"flag"
 	"fmt"
@@ -236,7 +237,11 @@ func run(start time.Time) (code int) {
 		}
 		active = append(active, o)
 	}
-	x.dischargeAll(active, work, timeout, 7)
+	par := runtime.NumCPU() * 5 / 16 // each obligation races up to ten solver processes
+	if par < 2 {
+		par = 2
+	}
+	x.dischargeAll(active, work, timeout, par)
 
 	if d := os.Getenv("GOVC_DUMP"); d != "" {
 		for _, o := range active {
